@@ -95,8 +95,19 @@ Proof.
   rewrite w_consume_rt by exact container_id_range. cbn [bind].
   pose proof (len_nonneg ms).
   rewrite w_int_rt by (unfold i32; lia). cbn [bind].
+  unfold container_count_bad_go. destruct (Z.ltb_spec (len ms) 0); [lia|].
   apply dec_msgs_rt; auto.
   pose proof (encode_messages_len ms body Eb). rewrite app_length. unfold len in *. lia.
+Qed.
+
+(* malformed count: a negative message count is an error *)
+Lemma container_negative_count n r : - 2 ^ 31 <= n < 0 ->
+  decode_container (encode_uint32 c_MessageContainerTypeID ++ encode_int n ++ r) = Err (PTl EInvalidLength).
+Proof.
+  intros H. unfold decode_container.
+  rewrite w_consume_rt by exact container_id_range. cbn [bind].
+  rewrite w_int_rt by (unfold i32; lia). cbn [bind].
+  unfold container_count_bad_go. destruct (Z.ltb_spec n 0); [reflexivity|lia].
 Qed.
 
 (* the encoder succeeds on valid messages *)
@@ -203,6 +214,7 @@ Proof.
   destruct (wrapT (consume_id c_MessageContainerTypeID b)) as [b1| |]; cbn [bind]; [|destruct C as [t ->]; discriminate|exact C].
   destruct C as [OK1 L1]. unfold wrapT, decode_int.
   destruct (decode_int32_spec b1) as [[_ E]|[L2 E]]; rewrite E; cbn [map_err bind]; [discriminate|].
+  destruct (container_count_bad_go (to_signed 32 (le_dec (firstn 4 b1)))); [discriminate|].
   pose proof (dec_msgs_total (S (length (skipn 4 b1))) (to_signed 32 (le_dec (firstn 4 b1))) (skipn 4 b1)
                 (bytes_ok_skipn 4 b1 OK1) ltac:(lia)) as T.
   destruct (dec_msgs _ _ _) as [[ms b2]| |]; auto.
